@@ -22,6 +22,19 @@ Three input streams:
   histories  sessions of 2-4 inverters constructed one after the other in the same process BEFORE any of
              them is evaluated, with the kernel / mean arguments left at their defaults, given as classes
              or as instances, same or different numbers of parameters, different positions.
+Round 4 added two more:
+  representations  the hyper-parameter vector handed to EVERY method as an integer array (int64 / int32), a list
+             or tuple of Python ints (whole-number values, negative ones included), a list / tuple of Python
+             floats, or a float32 array, and / or the constructor's y, model matrix and positions as int64 /
+             int32 / float32 arrays (y_err as an integer array is refused by the pinned constructor: refused-or-
+             right).  The outputs go through the same eight Coq obligations; coq/gen/C17/typed.v additionally
+             evaluates Model/InversionRepr.v (check_typed, Matrix/InversionReprCheck.v; theorems C17_repr_*);
+  large      120 .. 1000 data rows at ordinary error levels (1-3 %, 0.5-1 %, 20-50) and in extreme units
+             (2^-13, 2^17), plus one problem whose product of the Cholesky diagonal is a SUBNORMAL double:
+             prod(diag L) is 1e-2400 .. 1e+1500 there.  Both evidence routines are compared with
+             lin_lml_value (RealModel/InversionValue.v, theorems C17_evidence_* of Properties/C17Large.v) on
+             the implementation's OWN Cholesky factor by coq-interval goals, and [oracle] with an independent
+             slogdet-based log-density; the gradient with central differences of that log-density.
 K, the prior mean and their gradients that go into the model are built by FRESH kernel / mean objects on
 the inverter's OWN positions; Model/InversionHistory.v (theorems C17_history_*) is the model of which
 object an inverter holds and whose spatial data it carries, evaluated by vm_compute on the generated
@@ -30,7 +43,13 @@ history (coq/gen/C17/history.v) against what is observed on the real objects.
 from __future__ import annotations
 
 import math
+import os
 import warnings
+
+# single-threaded BLAS: the small cases gain nothing from threads, and on a busy machine the spinning worker
+# threads of OpenBLAS make the 400 .. 1000-row factorisations of the `large` stream hundreds of times slower
+for _v in ("OMP_NUM_THREADS", "OPENBLAS_NUM_THREADS", "MKL_NUM_THREADS"):
+    os.environ.setdefault(_v, "1")
 from fractions import Fraction
 
 import numpy as np
@@ -45,7 +64,21 @@ THEOREMS = ["C17_inv_sigma", "C17_post_cov_closed", "C17_post_cov_precision",
             "C17_post_cov_order", "C17_evidence_value", "C17_gradient_forms",
             "C17_history_posterior", "C17_history_own_positions", "C17_history_shared_default_refuted"]
 
+REPR_THEOREMS = ["C17_repr_values_only", "C17_repr_as_float", "C17_repr_gradient_exact",
+                 "C17_repr_gradient_values_only", "C17_repr_trunc", "C17_repr_like_float_ok", "C17_repr_like_refuted"]
+LARGE_THEOREMS = ["C17_evidence_logdet", "C17_evidence_sum_is_linear", "C17_evidence_product_form_real",
+                  "C17_evidence_product_underflows", "C17_evidence_product_overflows",
+                  "C17_evidence_product_form_refuted"]
+
 HEADER = MX.HEADER.format(mods="Matrix.Inversion Matrix.InversionCheck")
+TYPED_HEADER = MX.HEADER.format(mods="Matrix.Inversion Matrix.InversionCheck Matrix.InversionReprCheck") + \
+    "From IT Require Import Model.InversionRepr.\n"
+LARGE_PREAMBLE = """From Coq Require Import Reals List Lra.
+From Interval Require Import Tactic.
+From IT Require Import RealModel.SelectionValue RealModel.InversionValue Proofs.InversionValueProofs.
+Import ListNotations.
+Open Scope R_scope.
+"""
 HIST_HEADER = """From Coq Require Import List.
 From IT Require Import Model.InversionHistory.
 Import ListNotations.
@@ -69,6 +102,13 @@ OBLIGATION_NAMES = {
     8: "marginal_likelihood differs from -1/2 r^T J^-1 r - 1/2 ln det J",
 }
 
+TYPED_OBLIGATION_NAMES = {
+    0: "the values of the hyper-parameter vector handed over are not the reference values (harness error)",
+    1: "the reported gradient is not the model gradient for the hyper-parameter vector as it was handed over",
+    2: "the reported gradient is the model gradient TRUNCATED toward zero: it was written into a buffer that has "
+       "the integer storage class of the hyper-parameter vector",
+}
+
 HIST_OBLIGATION_NAMES = {
     0: "the generated history is not well-formed (harness error)",
     1: "two inverters hold the same kernel object (or the model's sharing structure is not the observed one)",
@@ -87,6 +127,11 @@ UNIT_PAIRS = [(2.0 ** -20, 1.0), (1.0, 2.0 ** -20), (1e-6, 1.0), (2.0 ** -30, 1.
               (2.0 ** 20, 2.0 ** -20), (3e-9, 1.0), (1.0, 2.0 ** 10), (2.0 ** -40, 1.0), (1e-3, 1e-3),
               (2.0 ** 20, 1.0), (2.0 ** -27, 2.0 ** 10), (1e4, 1.0), (2.0 ** -16, 2.0 ** -8)]
 CLASS_KERNELS = [["SE"], ["RQ"]]
+# how the hyper-parameter vector is handed to the methods / how y, A, positions are handed to the constructor
+THETA_REPRS = ["int64", "list_int", "float64", "int32", "tuple_int", "list_float", "float32", "tuple_float"]
+# ("int64:y": only y is an integer array (counts), model matrix and positions are ordinary float64 arrays)
+INPUT_REPRS = ["float64", "int64", "int64:y", "int32", "float32", "float64", "int64+err"]
+WHOLE_THETA = ("int64", "int32", "list_int", "tuple_int")
 
 
 def INV():
@@ -99,7 +144,9 @@ def grid(r, lo, hi, q=64):
 
 
 # ---------------------------------------------------------------- generation
-def gen_A(r, shape, n_fixed=None, top=7):
+def gen_A(r, shape, n_fixed=None, top=7, whole=False):
+    if whole:
+        return gen_A_whole(r, shape, top)
     if n_fixed is not None:
         n = n_fixed
         if shape == "tall":
@@ -136,35 +183,106 @@ def gen_A(r, shape, n_fixed=None, top=7):
     return A
 
 
+def gen_A_whole(r, shape, top):
+    """Model matrices with whole-number entries (-2 .. 2), same shapes as gen_A."""
+    if shape == "tall":
+        n = r.randint(1, top - 2)
+        m = r.randint(n + 1, top)
+    elif shape == "wide":
+        m = r.randint(1, top - 2)
+        n = r.randint(m + 1, top)
+    elif shape == "square":
+        m = n = r.randint(1, top - 1)
+    else:
+        m, n = r.randint(2, top), r.randint(2, top)
+    A = np.array([[r.randint(-2, 2) for _ in range(n)] for _ in range(m)], dtype=float)
+    if shape == "rank_deficient":
+        kind = r.choice(["dup_row", "zero_col", "rank1"])
+        if kind == "dup_row":
+            A[-1] = A[0]
+        elif kind == "zero_col":
+            A[:, r.randrange(n)] = 0.0
+        else:
+            A = np.outer([r.choice([-1, 1, 2]) for _ in range(m)], [r.randint(-1, 1) for _ in range(n)]).astype(float)
+    return A
+
+
+def whole_kernel_hyperpars(r, spec, d):
+    """Whole-number hyper-parameters (log-amplitudes 0 / 1, log-scales -1 / 0 / 1, log-noise -2 / -1, change
+    point at 1 / 2 / 3 of width 1): what a caller writes as array([2, 0, -1])."""
+    k = spec[0]
+    if k == "SE":
+        return [r.choice([0, 1])] + [r.choice([-1, 0, 1]) for _ in range(d)]
+    if k == "RQ":
+        return [r.choice([0, 1]), r.choice([0, 1])] + [r.choice([-1, 0, 1]) for _ in range(d)]
+    if k == "WN":
+        return [r.choice([-2, -1])]
+    if k == "sum":
+        return sum((whole_kernel_hyperpars(r, sp, d) for sp in spec[1:]), [])
+    if k == "CP":
+        out = sum((whole_kernel_hyperpars(r, sp, d) for sp in spec[1]), [])
+        for _ in range(len(spec[1]) - 1):
+            out += [r.choice([1, 2, 3]), 1]
+        return out
+    raise ValueError(spec)
+
+
+def whole_mean_hyperpars(r, name, d):
+    n = {"const": 1, "linear": 1 + d, "quadratic": 1 + 2 * d}[name]
+    return [r.randint(-2, 2)] + [r.randint(-1, 1) for _ in range(n - 1)]
+
+
 def gen_case(r, k, tier, unit=1.0, gain=1.0, kern=None, mean=None, shape=None,
-             cov_arg="instance", mean_arg="instance", n_fixed=None, top=7):
+             cov_arg="instance", mean_arg="instance", n_fixed=None, top=7,
+             theta_repr="float64", input_repr="float64"):
     """unit: physical unit of the signal (kernel amplitudes, mean parameters); gain: scale of the forward
     model; the data and their errors are in units of unit * gain.  With unit = gain = 1 the draws are those
     of the first version of this check."""
     kern = kern or KERNELS[k % len(KERNELS)]
     mean = mean or MEANS[(k // len(KERNELS)) % len(MEANS)]
     shape = shape or SHAPES[(k + k // (len(KERNELS) * len(MEANS))) % len(SHAPES)]
+    whole_y = input_repr.startswith("int")           # y (and y_err for "+err") are whole numbers
+    whole_in = whole_y and ":y" not in input_repr    # ... and so are the model matrix and the positions
+    whole_th = theta_repr in WHOLE_THETA
     for _ in range(300):
-        A = gen_A(r, shape, n_fixed, top)
+        A = gen_A(r, shape, n_fixed, top, whole=whole_in)
         m, n = A.shape
         if MX.kernel_has(kern, "CP") and n < 2:
             continue
         d = r.choice([1, 1, 2])
+        if whole_in and n > 4:
+            d = 2
         while True:
-            pos = np.array([[grid(r, 0, 4) for _ in range(d)] for _ in range(n)], dtype=float)
+            if whole_in:
+                pos = np.array([[r.randint(0, 4) for _ in range(d)] for _ in range(n)], dtype=float)
+            else:
+                pos = np.array([[grid(r, 0, 4) for _ in range(d)] for _ in range(n)], dtype=float)
             if n == 1 or min(np.abs(pos[i] - pos[j]).max() for i in range(n) for j in range(i)) >= 0.125:
                 break
-        y = np.array([grid(r, -3, 3, 256) for _ in range(m)], dtype=float)
+        if whole_y:
+            y = np.array([r.randint(-3, 3) for _ in range(m)], dtype=float)
+        else:
+            y = np.array([grid(r, -3, 3, 256) for _ in range(m)], dtype=float)
         # multiples of 1/16: the exact 1/e^2 then has a small denominator (k^2 | 2^6 3^4 5^2 7^2 11^2), which
         # keeps the rational arithmetic of the model cheap; the code's own y_err**-2 is a rounded double
-        e = np.array([r.randint(2, 12) / 16 for _ in range(m)], dtype=float)
-        theta = ([v * unit for v in MX.mean_hyperpars(r, mean, d)]
-                 + MX.kernel_hyperpars(r, kern, n, d, 0.5 * unit, 3.0 * unit, 0.15 * unit, 0.6 * unit))
+        if input_repr.endswith("+err"):
+            e = np.array([r.randint(1, 2) for _ in range(m)], dtype=float)
+        else:
+            e = np.array([r.randint(2, 12) / 16 for _ in range(m)], dtype=float)
+        if whole_th:
+            theta = [float(v) for v in whole_mean_hyperpars(r, mean, d) + whole_kernel_hyperpars(r, kern, d)]
+        else:
+            theta = ([v * unit for v in MX.mean_hyperpars(r, mean, d)]
+                     + MX.kernel_hyperpars(r, kern, n, d, 0.5 * unit, 3.0 * unit, 0.15 * unit, 0.6 * unit))
+            if theta_repr != "float64":
+                # multiples of 1/64: exactly representable in every float type the vector is handed over in
+                theta = [round(v * 64) / 64 for v in theta]
         A, y, e = A * gain, y * (unit * gain), e * (unit * gain)
         case = {"m": m, "n": n, "d": d, "shape": shape, "rank": int(np.linalg.matrix_rank(A)),
                 "A": MX.hexlist(A), "y": MX.hexlist(y), "y_err": MX.hexlist(e), "positions": MX.hexlist(pos),
                 "kernel": kern, "mean": mean, "theta": MX.hexlist(theta),
-                "unit": float(unit), "gain": float(gain), "cov_arg": cov_arg, "mean_arg": mean_arg}
+                "unit": float(unit), "gain": float(gain), "cov_arg": cov_arg, "mean_arg": mean_arg,
+                "theta_repr": theta_repr, "input_repr": input_repr}
         c1, c2 = conds(case)
         if c1 <= COND_MAX and c2 <= COND_MAX:
             case["cond_system"], case["cond_J"] = c1, c2
@@ -219,6 +337,59 @@ def conds(case):
     return float(np.linalg.cond(np.eye(case["n"]) + K @ W)), float(np.linalg.cond(J))
 
 
+# ---------------------------------------------------------------- representations
+def typed_theta(theta, rep):
+    """The hyper-parameter values as the caller hands them over.  Every representation holds the SAME values
+    (asserted): integer kinds are used with whole-number vectors only, float32 with multiples of 1/64."""
+    theta = np.asarray(theta, dtype=float)
+    if rep == "float64":
+        out = theta.copy()
+    elif rep in ("int64", "int32"):
+        out = np.array([int(v) for v in theta], dtype=rep)
+    elif rep == "float32":
+        out = np.array(theta, dtype=np.float32)
+    elif rep in ("list_int", "tuple_int"):
+        out = [int(v) for v in theta]
+    elif rep in ("list_float", "tuple_float"):
+        out = [float(v) for v in theta]
+    else:
+        raise ValueError(rep)
+    if rep.startswith("tuple"):
+        out = tuple(out)
+    assert [float(v) for v in out] == [float(v) for v in theta], (rep, theta)
+    return out
+
+
+def typed_inputs(case, A, y, e, pos):
+    """y, model matrix and positions as the caller's arrays (the values are the case's, exactly).  y_err is an
+    integer array only in the `+err` variant (the pinned constructor refuses it: integers to negative powers);
+    float32 is used for y and the model matrix only: y_err**-2 of a float32 y_err is a float32 quantity (a
+    different likelihood at the 1e-7 level), and float32 positions make the kernel objects work on float32
+    distances (their K then differs from the K of the same positions at the 1e-8 level: C10's subject)."""
+    rep = case.get("input_repr", "float64")
+    base, err = rep.split("+")[0].split(":")[0], rep.endswith("+err")
+    if base == "float64":
+        return A.copy(), y.copy(), e.copy(), pos.copy()
+
+    def conv(a):
+        b = np.array(a, dtype=base)
+        assert np.array_equal(b.astype(float), a), (rep, a)
+        return b
+    if rep.endswith(":y"):
+        return A.copy(), conv(y), e.copy(), pos.copy()
+    return conv(A), conv(y), (conv(e) if err else e.copy()), (pos.copy() if base == "float32" else conv(pos))
+
+
+def coq_num_list(typed):
+    out = []
+    for v in typed:
+        if isinstance(v, (int, np.integer)) and not isinstance(v, bool):
+            out.append(f"NInt ({int(v)})")
+        else:
+            out.append(f"NFlt {C.cq(float(v))}")
+    return "[" + "; ".join(out) + "]"
+
+
 # ---------------------------------------------------------------- running the code
 def kernel_class(spec):
     from inference.gp import SquaredExponential, RationalQuadratic, WhiteNoise
@@ -271,16 +442,21 @@ def evaluate(inv, case):
     that go into the model come from FRESH objects on the case's own positions (C10 ties those to the kernel
     formulas); what the inverter's own objects build is compared with them."""
     A, y, e, pos, theta = arrays(case)
+    trep = case.get("theta_repr", "float64")
     stage = "reference kernel"
     try:
         with warnings.catch_warnings():
             warnings.simplefilter("ignore")
             fcov, fmean = fresh_prior(case)
             nm = int(fmean.n_params)
-            K, dK = fcov.covariance_and_gradients(theta[nm:])
-            Kb = fcov.build_covariance(theta[nm:])
-            mu, dmu = fmean.mean_and_gradients(theta[:nm])
-            pm = fmean.build_mean(theta[:nm])
+            # the reference prior is built from the float64 array of the VALUES, whatever object the inverter is
+            # handed -- except for float32, where the kernel objects themselves work at the precision of what they
+            # are given (exp of a float32 is a float32): the model then takes the K they build for that vector
+            rt = np.array(theta, dtype=np.float32) if trep == "float32" else theta
+            K, dK = fcov.covariance_and_gradients(rt[nm:])
+            Kb = fcov.build_covariance(rt[nm:])
+            mu, dmu = fmean.mean_and_gradients(rt[:nm])
+            pm = fmean.build_mean(rt[:nm])
             # history dimension: the SAME array object is first used with other hyper-parameter
             # values (both posterior paths), then overwritten in place with the intended ones
             stage = "warm-up with perturbed hyper-parameters"
@@ -289,7 +465,7 @@ def evaluate(inv, case):
             inv.calculate_posterior_mean(buf)
             inv.marginal_likelihood(buf)
             buf[:] = theta
-            theta = buf
+            theta = buf if trep == "float64" else typed_theta(theta, trep)
             stage = "calculate_posterior"
             pmean, pcov = inv.calculate_posterior(theta)
             stage = "calculate_posterior_mean"
@@ -310,7 +486,8 @@ def evaluate(inv, case):
                    "mean_only": np.array(mo, dtype=float).reshape(-1), "lml": lml, "lml_g": float(lml_g),
                    "grad": np.array(grad, dtype=float).reshape(-1), "n_mean": nm,
                    "A": np.array(inv.A, dtype=float), "y": np.array(inv.y, dtype=float),
-                   "K_inv": np.array(Kbi, dtype=float), "pm_inv": np.array(pmi, dtype=float).reshape(-1)}
+                   "K_inv": np.array(Kbi, dtype=float), "pm_inv": np.array(pmi, dtype=float).reshape(-1),
+                   "theta_handed_over": coq_num_list(theta), "grad_dtype": str(getattr(grad, "dtype", type(grad).__name__))}
             # the gradient routines must be talking about the same K and prior mean
             if not (np.allclose(K, Kb, rtol=1e-12, atol=0) and np.allclose(mu, pm, rtol=1e-12, atol=0)
                     and same(Ki, Kbi) and same(np.reshape(mui, -1), np.reshape(pmi, -1))):
@@ -391,8 +568,8 @@ def run_session(session):
         try:
             with warnings.catch_warnings():
                 warnings.simplefilter("ignore")
-                invs.append(INV()(y=y.copy(), y_err=e.copy(), model_matrix=A.copy(),
-                                  parameter_spatial_positions=pos.copy(), **kw))
+                tA, ty, te, tpos = typed_inputs(case, A, y, e, pos)
+                invs.append(INV()(y=ty, y_err=te, model_matrix=tA, parameter_spatial_positions=tpos, **kw))
         except Exception as ex:
             invs.append(None)
             outs.append({"status": "exception", "stage": "constructor", "error": f"{type(ex).__name__}: {ex}"})
@@ -584,11 +761,356 @@ def reference_evidence(case, theta):
     return -0.5 * float(quad) - 0.5 * (math.log(det.numerator) - math.log(det.denominator))
 
 
+# ---------------------------------------------------------------- large data sets
+# m data rows, n parameters, kernel, mean, relative range of y_err, unit of the signal, forward model, position
+# dimension, hyper-parameters in units of the signal: [mean parameters ..., log amplitude, (log alpha,) log scale]
+LARGE_SPECS = [
+    {"m": 400, "n": 120, "kernel": ["SE"], "mean": "const", "err": (0.01, 0.03), "unit": 1.0, "fm": "local", "d": 1,
+     "theta": [1.0, 0.3, -1.2]},
+    # (quick tier: oracle only -- its 25 interval chunks alone take as long as all the others together)
+    {"m": 1000, "n": 60, "kernel": ["SE"], "mean": "const", "err": (0.01, 0.03), "unit": 1.0, "fm": "local", "d": 1,
+     "theta": [1.0, 0.3, -1.2], "goals": "thorough"},
+    {"m": 320, "n": 40, "kernel": ["SE"], "mean": "const", "err": (20.0, 50.0), "unit": 1.0, "fm": "local", "d": 1,
+     "theta": [0.0, 3.0, -1.0]},
+    {"m": 320, "n": 15, "kernel": ["RQ"], "mean": "linear", "err": (0.005, 0.01), "unit": 1.0, "fm": "local", "d": 1,
+     "theta": [1.2, 0.4, 0.0, 0.5, -1.0]},
+    {"m": 120, "n": 160, "kernel": ["SE"], "mean": "const", "err": (0.02, 0.05), "unit": 2.0 ** -13, "fm": "dense", "d": 2,
+     "theta": [0.5, 0.0, -0.7, -0.7]},
+    {"m": 150, "n": 20, "kernel": ["SE"], "mean": "const", "err": (0.02, 0.05), "unit": 2.0 ** 17, "fm": "local", "d": 1,
+     "theta": [-1.0, 0.2, -1.0]},
+    {"m": 400, "n": 50, "kernel": ["SE"], "mean": "const", "err": (0.01, 0.03), "unit": 1.0, "fm": "local", "d": 1,
+     "theta": [1.0, 0.3, -1.2], "subnormal_product": True},
+]
+LARGE_SPECS_THOROUGH = [
+    {"m": 250, "n": 300, "kernel": ["RQ"], "mean": "const", "err": (0.02, 0.05), "unit": 1.0, "fm": "local", "d": 1,
+     "theta": [0.5, 0.2, 0.3, -1.5]},
+    {"m": 800, "n": 100, "kernel": ["sum", ["SE"], ["WN"]], "mean": "linear", "err": (0.02, 0.06), "unit": 1.0,
+     "fm": "local", "d": 1, "theta": [1.0, -0.3, 0.2, -1.0, -2.5]},
+    {"m": 300, "n": 80, "kernel": ["SE"], "mean": "const", "err": (100.0, 300.0), "unit": 1.0, "fm": "dense", "d": 1,
+     "theta": [0.0, 4.0, -1.0]},
+    {"m": 200, "n": 64, "kernel": ["SE"], "mean": "quadratic", "err": (0.01, 0.02), "unit": 2.0 ** -30, "fm": "local",
+     "d": 1, "theta": [1.0, 0.2, -0.1, 0.3, -1.0]},
+    {"m": 350, "n": 90, "kernel": ["RQ"], "mean": "const", "err": (0.05, 0.1), "unit": 1.0, "fm": "local", "d": 2,
+     "theta": [1.0, 0.5, 0.0, -0.8, -0.8]},
+    {"m": 400, "n": 30, "kernel": ["RQ"], "mean": "const", "err": (20.0, 40.0), "unit": 1.0, "fm": "local", "d": 1,
+     "theta": [0.0, 2.5, 0.5, -1.0], "subnormal_product": False, "huge_product": True},
+]
+
+
+def large_arrays(spec):
+    """The arrays of a large case, regenerated from the spec (its `np_seed` fixes every draw).  Signal of order
+    `unit`: truth = unit * (1.5 + sin(3 x_0)), errors err * unit, kernel amplitude exp(theta) * unit."""
+    g = np.random.default_rng(spec["np_seed"])
+    m, n, d, unit = spec["m0"], spec["n"], spec["d"], spec["unit"]
+    pos = g.uniform(-1, 1, size=(n, d))
+    pos = pos[np.argsort(pos[:, 0])]
+    if spec["fm"] == "local":          # local averaging, rows sum to one
+        centres = g.uniform(-1, 1, size=(m, d))
+        A = np.exp(-0.5 * (((centres[:, None, :] - pos[None, :, :]) / 0.15) ** 2).sum(axis=2)) + 1e-3
+        A /= A.sum(axis=1)[:, None]
+    else:                              # dense, entries of both signs
+        A = g.normal(size=(m, n)) / math.sqrt(n)
+    truth = unit * (1.5 + np.sin(3 * pos[:, 0]))
+    e = g.uniform(spec["err"][0], spec["err"][1], size=m) * unit
+    y = A @ truth + e * g.normal(size=m)
+    nm = {"const": 1, "linear": 1 + d, "quadratic": 1 + 2 * d}[spec["mean"]]
+    theta = np.array(spec["theta"], dtype=float)
+    theta[:nm] *= unit
+    k = nm
+    for name in ([spec["kernel"][0]] if spec["kernel"][0] != "sum" else [sp[0] for sp in spec["kernel"][1:]]):
+        theta[k] += math.log(unit)     # log amplitude (SE, RQ) / log noise level (WN)
+        k += {"SE": 1 + d, "RQ": 2 + d, "WN": 1}[name]
+    assert k == theta.size, (spec, k)
+    mm = spec["m"]
+    return A[:mm].copy(), y[:mm].copy(), e[:mm].copy(), pos, theta
+
+
+def large_prior(spec, pos, theta):
+    with warnings.catch_warnings():
+        warnings.simplefilter("ignore")
+        cov, mean = MX.make_kernel(spec["kernel"]), MX.make_mean(spec["mean"])
+        cov.pass_spatial_data(pos.copy())
+        mean.pass_spatial_data(pos.copy())
+        nm = int(mean.n_params)
+        K = np.array(cov.build_covariance(theta[nm:]), dtype=float)
+        pm = np.array(mean.build_mean(theta[:nm]), dtype=float).reshape(-1)
+    return K, pm, nm
+
+
+def large_reference(spec, A, y, e, pos, theta):
+    """-1/2 r^T J^-1 r - 1/2 ln det J (slogdet: no product is formed) from a fresh kernel / mean object."""
+    K, pm, _ = large_prior(spec, pos, theta)
+    J = A @ K @ A.T + np.diag(e ** 2)
+    r = y - A @ pm
+    sign, logdet = np.linalg.slogdet(J)
+    if not sign > 0:
+        raise ZeroDivisionError("det J <= 0")
+    return -0.5 * float(r @ np.linalg.solve(J, r)) - 0.5 * float(logdet)
+
+
+def large_eval(spec):
+    """Both evidence routines on a large case, with the implementation's OWN Cholesky factors (recorded from the
+    call inversion.py makes)."""
+    A, y, e, pos, theta = large_arrays(spec)
+    import inference.gp.inversion as IM
+    rec = []
+    orig = getattr(IM, "cholesky", None)
+
+    def spy(a, *args, **kw):
+        L = orig(a, *args, **kw)
+        rec.append(np.array(L, dtype=float))
+        return L
+    out = {"status": "ok"}
+    stage = "constructor"
+    try:
+        with warnings.catch_warnings():
+            warnings.simplefilter("ignore")
+            inv = INV()(y=y.copy(), y_err=e.copy(), model_matrix=A.copy(), parameter_spatial_positions=pos.copy(),
+                        prior_covariance_function=MX.make_kernel(spec["kernel"]),
+                        prior_mean_function=MX.make_mean(spec["mean"]))
+            if orig is not None:
+                IM.cholesky = spy
+            try:
+                stage = "marginal_likelihood"
+                out["lml"] = float(inv.marginal_likelihood(theta.copy()))
+                out["L"] = rec[-1] if rec else None
+                del rec[:]
+                stage = "marginal_likelihood_gradient"
+                lg, grad = inv.marginal_likelihood_gradient(theta.copy())
+                out["lml_g"], out["grad"] = float(lg), np.array(grad, dtype=float).reshape(-1)
+                out["L_g"] = rec[-1] if rec else None
+            finally:
+                if orig is not None:
+                    IM.cholesky = orig
+            K, pm, nm = large_prior(spec, pos, theta)
+            out["n_mean"] = nm
+            for key in ("L", "L_g"):
+                if out[key] is None or out[key].shape != (spec["m"], spec["m"]):
+                    # the routine does not call the module's `cholesky`: factor of the inverter's own matrices
+                    out[key] = np.linalg.cholesky(np.array(inv.A, dtype=float) @ K @ np.array(inv.A, dtype=float).T
+                                                  + np.array(inv.sigma, dtype=float))
+                    out["factor_recomputed"] = True
+            out["resid"] = y - A @ pm
+    except Exception as ex:
+        return {"status": "exception", "stage": stage, "error": f"{type(ex).__name__}: {ex}"}
+    return out
+
+
+def large_oracle(spec, out):
+    """The property on a large case: both evidence values against the log-density of the data, the gradient
+    against its central differences."""
+    A, y, e, pos, theta = large_arrays(spec)
+    bad = []
+    want = large_reference(spec, A, y, e, pos, theta)
+    tol = 1e-7 * max(1.0, abs(want))
+    for name, key in (("marginal_likelihood", "lml"), ("marginal_likelihood_gradient()[0]", "lml_g")):
+        if not math.isfinite(out[key]) or abs(out[key] - want) > tol:
+            bad.append(f"{name} = {out[key]!r} on {spec['m']} data rows (y_err {spec['err'][0]:g}-{spec['err'][1]:g} "
+                       f"x unit {unit_name(spec['unit'])}) but the log-density of the data is {want!r} (+ const)")
+    g = out["grad"]
+    nm, u = out["n_mean"], spec["unit"]
+    if g.shape != theta.shape or not np.all(np.isfinite(g)):
+        bad.append(f"the gradient {g!r} is not a finite vector of {theta.size} entries")
+        return bad
+    gmax = [max(float(np.abs(g[:nm]).max(initial=0.0)), 1.0)] * nm + \
+           [max(float(np.abs(g[nm:]).max(initial=0.0)), 1.0)] * (theta.size - nm)
+    for i in range(theta.size):
+        h = 1e-5 * (u if i < nm else 1.0)
+        tp, tm_ = theta.copy(), theta.copy()
+        tp[i] += h
+        tm_[i] -= h
+        fd = (large_reference(spec, A, y, e, pos, tp) - large_reference(spec, A, y, e, pos, tm_)) / (2 * h)
+        if abs(fd - g[i]) > 1e-4 * max(abs(fd), gmax[i]):
+            bad.append(f"gradient component {i} = {float(g[i])!r} on {spec['m']} data rows but the log-density of the "
+                       f"data has derivative {fd!r}")
+    return bad
+
+
+def large_fails(spec):
+    out = large_eval(spec)
+    if out["status"] != "ok":
+        return True
+    try:
+        return bool(large_oracle(spec, out))
+    except Exception:
+        return False
+
+
+def shrink_large(spec):
+    """The smallest number of leading data rows (halving, then bisecting) for which the case still fails."""
+    lo, hi = 1, spec["m"]
+    if not large_fails(spec):
+        return spec
+    while hi - lo > max(1, hi // 16):
+        mid = (lo + hi) // 2
+        if large_fails(dict(spec, m=mid)):
+            hi = mid
+        else:
+            lo = mid
+    return dict(spec, m=hi)
+
+
+def large_specs(r, tier):
+    specs = []
+    for sp in LARGE_SPECS + (LARGE_SPECS_THOROUGH if tier != "quick" else []):
+        sp = dict(sp, np_seed=r.getrandbits(48), m0=sp["m"])
+        if sp.get("subnormal_product") or sp.get("huge_product"):
+            # as many leading rows as it takes for prod(diag L) to be a SUBNORMAL double (a few bits of it are
+            # left) / to be within a factor 10 of the largest double: the leading principal block of J has the
+            # leading block of L as its factor
+            A, y, e, pos, theta = large_arrays(sp)
+            K, _, _ = large_prior(sp, pos, theta)
+            lg = np.cumsum(np.log10(np.diag(np.linalg.cholesky(A @ K @ A.T + np.diag(e ** 2)))))
+            target = -322.6 if sp.get("subnormal_product") else 307.9
+            sp["m"] = int(np.argmin(np.abs(lg - target))) + 1
+            sp["log10_product"] = float(lg[sp["m"] - 1])
+        specs.append(sp)
+    return specs
+
+
+def large_goals(j, out, solve_triangular, chunk=40):
+    """The coq-interval goals of one large case: |lin_lml_value quad (diag L) - observed| <= 1e-7 max(1, |observed|)
+    for both evidence routines, each on the factor recorded from that routine.  `interval` is superlinear in the
+    size of the term, so the sum of logarithms is bounded chunk by chunk (lemmas chunk_*: bounds proposed by float
+    arithmetic, PROVED by interval) and the chunks are put together with sum_ln_app and lra."""
+    pre, goals = [LARGE_PREAMBLE], []
+    shared = np.array_equal(np.diag(out["L"]), np.diag(out["L_g"]))
+    done = {}
+    for tag, key, Lk in (("value", "lml", "L"), ("value_and_gradient", "lml_g", "L_g")):
+        L = out[Lk]
+        v = solve_triangular(L, out["resid"], lower=True)
+        quad = -sum((Fraction(float(t)) ** 2 for t in v), Fraction(0)) / 2
+        gtol = Fraction(1e-7 * max(1.0, abs(out[key]))).limit_denominator(10 ** 12)
+        pfx = "a" if (Lk == "L" or shared) else "b"
+        if pfx not in done:
+            dg = [float(t) for t in np.diag(L)]
+            names = []
+            for c0 in range(0, len(dg), chunk):
+                part = dg[c0:c0 + chunk]
+                nm = f"{pfx}{c0 // chunk}"
+                pre.append(f"Definition {nm} : list R := [" + "; ".join(C.cR(Fraction(t)) for t in part) + "].")
+                ok = all(t > 0 and math.isfinite(t) for t in part)
+                sj = math.fsum(math.log(t) for t in part) if ok else 0.0
+                dj = Fraction(1e-10 * (1.0 + abs(sj))).limit_denominator(10 ** 15)
+                # (part of the preamble, so that it stays available when the goals are re-run after a failure;
+                # it can only fail if the factor has a non-positive diagonal entry: the file is then reported)
+                pre.append(f"Lemma chunk_{nm} : Rabs (sum_ln {nm} - {C.cR(Fraction(sj))}) <= {C.cR(dj)}.\n"
+                           f"Proof. unfold {nm}; cbn [sum_ln]; interval. Qed.")
+                names.append((nm, f"chunk_{nm}"))
+            done[pfx] = names
+        names = done[pfx]
+        whole = " ++ ".join(nm for nm, _ in names)
+        goals.append((f"large{j}_{tag}",
+                      f"Rabs (lin_lml_value {C.cR(quad)} ({whole}) - {C.cR(Fraction(out[key]))}) <= {C.cR(gtol)}",
+                      "unfold lin_lml_value; rewrite ?sum_ln_app; "
+                      + "; ".join(f"pose proof (Rabs_le_bounds _ _ {lem})" for _, lem in names)
+                      + "; apply Rabs_le; lra"))
+    return "\n".join(pre), goals
+
+
+def large_start(r, tier):
+    """Stream `large`, first half: run the implementation on every problem and start the goal files in the
+    background (nothing is reported from here: the report object is used from the main thread only)."""
+    from scipy.linalg import solve_triangular
+    from concurrent.futures import ThreadPoolExecutor
+    specs = large_specs(r, tier)
+    files_goals, evals = {}, {}
+    for j, sp in enumerate(specs):
+        out = large_eval(sp)
+        evals[j] = out
+        if out["status"] != "ok" or not (math.isfinite(out["lml"]) and math.isfinite(out["lml_g"])):
+            continue               # no real number to put into a goal: reported by large_finish / its oracle
+        if tier == "quick" and sp.get("goals") == "thorough":
+            continue
+        files_goals[j] = large_goals(j, out, solve_triangular)
+
+    def run_file(j):
+        pre, goals = files_goals[j]
+        return IV._run_chunk(PROP, f"large_{j}", pre, "", goals, 900, max_fail=len(goals))
+    ex = ThreadPoolExecutor(max_workers=7)
+    futs = {j: ex.submit(run_file, j) for j in sorted(files_goals)}
+    return {"specs": specs, "evals": evals, "files_goals": files_goals, "futs": futs, "ex": ex}
+
+
+def large_finish(rep, st, tier):
+    """Stream `large`, second half: see the module docstring."""
+    specs, evals, files_goals = st["specs"], st["evals"], st["files_goals"]
+    for j, sp in enumerate(specs):
+        rep.count("large/data_rows=%d" % sp["m"])
+        rep.count("large/n=%d" % sp["n"])
+        rep.count("large/kernel=%s,mean=%s,unit=%s,y_err=%g-%g" % (MX.kernel_name(sp["kernel"]), sp["mean"],
+                                                                unit_name(sp["unit"]), sp["err"][0], sp["err"][1]))
+        out = evals[j]
+        rep.case({"large": sp}, nontrivial=True)
+        if out["status"] != "ok":
+            rep.obligation(False)
+            rep.violation("C17/exception/large-data",
+                          f"GpLinearInverter failed on a valid input with {sp['m']} data rows ({out['stage']}: {out['error']})",
+                          {"large_case": sp, "impl": out}, True)
+            continue
+        logp = float(np.log10(np.diag(out["L"])).sum())
+        rep.count("large/log10 prod(diag L) in " + ("(-inf,-324): not a double" if logp < -324 else
+                                                     "[-324,-308): subnormal" if logp < -308 else
+                                                     "[-308,308]" if logp <= 308 else "(308,inf): not a double"))
+        if j < 3:
+            rep.sample({"stream": "large", "config": {k: sp[k] for k in ("m", "n", "kernel", "mean", "err", "unit", "fm")},
+                        "log10_prod_diag_L": logp, "impl_lml": out["lml"], "impl_lml_from_gradient_routine": out["lml_g"]})
+        if j not in files_goals and tier == "quick" and sp.get("goals") == "thorough":
+            rep.count("large/interval goals left to the thorough tier")
+    goal_failed, n_goals = {}, 0
+    for j in sorted(files_goals):
+        failed, br = st["futs"][j].result()
+        ng = len(files_goals[j][1])
+        n_goals += ng
+        if br:
+            rep.obligation(False, ng)
+            goal_failed.setdefault(j, []).append("file not processed")
+            rep.violation("C17/evidence-run", "a large-data value goal file could not be processed",
+                          {"theorem_or_correspondence": f"coq/gen/C17/large_{j}_*.v (RealModel.InversionValue.lin_lml_value)",
+                           "log": br[-800:]}, False)
+            continue
+        rep.obligation(True, ng - len(failed))
+        for gid, log in failed:
+            rep.obligation(False)
+            goal_failed.setdefault(j, []).append(gid)
+    st["ex"].shutdown()
+    rep.coverage["large_data_value_goals"] = n_goals
+    n_or = 0
+    for j, sp in enumerate(specs):
+        out = evals[j]
+        if out["status"] != "ok":
+            continue
+        n_or += 1
+        try:
+            bad = large_oracle(sp, out)
+        except Exception as ex:
+            bad = []
+            if j in goal_failed:
+                goal_failed[j].append(f"oracle: {ex}")
+        rep.obligation(not bad)
+        if bad:
+            small = shrink_large(sp)
+            rep.violation("C17/property/large-data", "; ".join(bad[:2]) +
+                          (f" [still fails with the first {small['m']} data rows]" if small["m"] < sp["m"] else ""),
+                          {"large_case": small, "failing_goals": goal_failed.get(j),
+                           "note": "harness/props/c17.py large_arrays(large_case) regenerates A, y, y_err, positions, theta"},
+                          True)
+        elif j in goal_failed:
+            rep.violation("C17/correspondence/large-data",
+                          f"an evidence routine does not return -1/2 v.v - sum ln L_ii for the implementation's own "
+                          f"Cholesky factor ({', '.join(map(str, goal_failed[j]))}) on {sp['m']} data rows, but the "
+                          "property was not seen to fail on this input",
+                          {"theorem_or_correspondence": "RealModel.InversionValue.lin_lml_value (coq/gen/C17/large_*.v)",
+                           "large_case": sp}, False)
+    rep.coverage["large_oracle_runs"] = n_or
+
+
 # ---------------------------------------------------------------- driver
 def describe(case):
     d = {k: case[k] for k in ("m", "n", "d", "shape", "A", "y", "y_err", "positions", "kernel", "mean", "theta")}
     d.update({"unit": case.get("unit", 1.0), "gain": case.get("gain", 1.0),
-              "cov_arg": case.get("cov_arg", "instance"), "mean_arg": case.get("mean_arg", "instance")})
+              "cov_arg": case.get("cov_arg", "instance"), "mean_arg": case.get("mean_arg", "instance"),
+              "theta_repr": case.get("theta_repr", "float64"), "input_repr": case.get("input_repr", "float64")})
     return d
 
 
@@ -644,6 +1166,7 @@ def run(rep: C.Report, tier: str) -> int:
     n_cases = 120 if tier == "quick" else 1500
     n_scale = 32 if tier == "quick" else 300
     n_hist = 12 if tier == "quick" else 100
+    n_repr = 16 if tier == "quick" else 168
     C.clean_gen(PROP)
     import time
     phase, t_ph = {}, time.time()
@@ -654,6 +1177,24 @@ def run(rep: C.Report, tier: str) -> int:
         t_ph = time.time()
         rep.coverage["phase_wall_s"] = phase
     C.prove_and_audit(rep, PROP, THEOREMS)
+    # the two round-4 property files are audited in the background (coqc start-up dominates) and collected below
+    from concurrent.futures import ThreadPoolExecutor
+    aud_ex = ThreadPoolExecutor(max_workers=2)
+    aud_futs = [(_tag, _names, aud_ex.submit(C.coq_audit, f"{PROP}_{_tag}", _names, _mod))
+                for _tag, _names, _mod in (("repr", REPR_THEOREMS, "IT.Properties.C17Repr"),
+                                           ("large", LARGE_THEOREMS, "IT.Properties.C17Large"))]
+
+    def collect_audits():
+        for _tag, _names, _f in aud_futs:
+            try:
+                _a = _f.result()
+                rep.obligation(True, len(_names))
+                rep.coverage[f"{_tag}_theorems_audit"] = _a
+            except C.ProofFailure as _e:
+                rep.obligation(False, len(_names))
+                rep.violation("C17/proof", f"proof obligation no longer checks: {_e.what}",
+                              {"theorem_or_correspondence": _e.what, "log": _e.log[-1000:]}, False)
+        aud_ex.shutdown()
     lap("audit")
 
     cases, sessions, stream = [], [], []
@@ -677,6 +1218,16 @@ def run(rep: C.Report, tier: str) -> int:
         cases.extend(sess)
         stream.extend(["histories"] * len(sess))
 
+    rr = C.rng_for(PROP, "representations")
+    for k in range(n_repr):
+        # 8 ways of handing over theta x 7 ways of handing over y / A / positions (coprime: all 56 pairs in the
+        # thorough tier); the (kernel, mean, shape) walk shifts from round to round
+        cases.append(gen_case(rr, k + 3 * (k // len(THETA_REPRS)), tier, top=5,
+                              theta_repr=THETA_REPRS[k % len(THETA_REPRS)],
+                              input_repr=INPUT_REPRS[k % len(INPUT_REPRS)]))
+        sessions.append([len(cases) - 1])
+        stream.append("representations")
+
     outs, observed, where = [None] * len(cases), [], {}
     for si, idx in enumerate(sessions):
         so, obs = run_session([cases[k] for k in idx])
@@ -698,6 +1249,8 @@ def run(rep: C.Report, tier: str) -> int:
         rep.count("mean_argument=" + case["mean_arg"])
         rep.count(f"signal_unit={unit_name(case['unit'])}")
         rep.count(f"model_gain={unit_name(case['gain'])}")
+        rep.count("theta_handed_over_as=" + case["theta_repr"])
+        rep.count("y,A,positions_handed_over_as=" + case["input_repr"] + ("(y,A)" if case["input_repr"] == "float32" else ""))
         _e = MX.unhex(case["y_err"])
         rep.count("min(y_err)<=1e%d" % math.ceil(math.log10(float(_e.min()))))
         rep.count("cond(I+KW)<=1e%d" % max(0, math.ceil(math.log10(case["cond_system"]))))
@@ -710,32 +1263,45 @@ def run(rep: C.Report, tier: str) -> int:
                         "impl_posterior_mean": out.get("pmean"), "impl_lml": out.get("lml")})
 
     lap("generate+run implementation")
+    # the large data sets: run the implementation now, let the interval goals run next to the case files
+    large_state = large_start(C.rng_for(PROP, "large"), tier)
+    lap("large data sets: implementation")
     suspicious = {}
     ok_idx = [k for k, o in enumerate(outs) if o["status"] == "ok"]
+    refused = set()
     for k, o in enumerate(outs):
+        if (o["status"] == "exception" and o["stage"] == "constructor" and o["error"].startswith("ValueError")
+                and cases[k]["input_repr"].endswith("+err")):
+            # y_err as an INTEGER array: refused-or-right.  The pinned constructor refuses it (numpy: "Integers
+            # to negative integer powers are not allowed"); a tree that accepts it is checked like any other case
+            rep.count("integer y_err refused by the constructor (ValueError)")
+            refused.add(k)
+            continue
         if o["status"] != "ok":
             suspicious[k] = f"{o['status']} in {o['stage']}: {o['error']}"
         elif o.get("foreign"):
             suspicious[k] = o["foreign"]
 
     # the construction histories: model (Model/InversionHistory.v) against the observed objects
-    hbody = ("Definition cases : list hist_case :=\n [" + ";\n  ".join(coq_hist(o) for o in observed) + "].")
+    # (sessions whose only construction was refused have no objects to look at)
+    hist_idx = [si for si in range(len(sessions)) if not any(k in refused for k in sessions[si])]
+    hbody = ("Definition cases : list hist_case :=\n [" + ";\n  ".join(coq_hist(observed[si]) for si in hist_idx) + "].")
     hfile = C.write_case_file(PROP, "history", HIST_HEADER, hbody, ["failing_hist cases"])
     hist_fail = {}
     ok, res, log = C.run_case_file(hfile, timeout=600)
     if not ok or 0 not in res:
-        rep.obligation(False, 5 * len(sessions))
+        rep.obligation(False, 5 * len(hist_idx))
         rep.violation("C17/correspondence-run", "the history file did not evaluate",
                       {"theorem_or_correspondence": "correspondence file history.v", "log": log}, False)
     else:
         fails = MX.decode_failures(res[0])
-        for si in range(len(sessions)):
-            fo = fails.get(si, [])
+        for hj, si in enumerate(hist_idx):
+            fo = fails.get(hj, [])
             rep.obligation(True, 5 - len(fo))
             if fo:
                 rep.obligation(False, len(fo))
                 hist_fail[si] = fo
-    rep.coverage["history_sessions"] = len(sessions)
+    rep.coverage["history_sessions"] = len(hist_idx)
     rep.coverage["history_obligations_per_session"] = HIST_OBLIGATION_NAMES
 
     def weight(k):
@@ -757,9 +1323,33 @@ def run(rep: C.Report, tier: str) -> int:
         body = ("Definition cases : list lin_case :=\n [" + ";\n  ".join(texts[k] for k in bucket) + "].")
         files.append(C.write_case_file(PROP, f"cases_{j}", HEADER, body, ["failing_lin cases"]))
         index.append(bucket)
+    # the representation model (Model/InversionRepr.v) on every case whose hyper-parameters / inputs were not
+    # handed over as float64 arrays
+    typed_idx = [k for k in ok_idx if stream[k] == "representations"]
+    tbody = ("Definition cases : list typed_case :=\n [" + ";\n  ".join(
+        "{| tc_theta := %s;\n    tc_float := %s;\n    tc_lin :=\n %s |}"
+        % (outs[k]["theta_handed_over"], MX.qvec(arrays(cases[k])[4]), texts[k]) for k in typed_idx) + "].")
+    tfile = C.write_case_file(PROP, "typed", TYPED_HEADER, tbody, ["failing_typed cases"])
     lap("history model")
-    results = C.run_case_files(files, jobs=14, timeout=1500)
+    results = C.run_case_files(files + [tfile], jobs=15, timeout=1500)
+    typed_res = results.pop()
     lap("case files (vm_compute)")
+    typed_fail = {}
+    ok, res, log = typed_res
+    if not ok or 0 not in res:
+        rep.obligation(False, 3 * len(typed_idx))
+        rep.violation("C17/correspondence-run", "the representation file typed.v did not evaluate",
+                      {"theorem_or_correspondence": "correspondence file typed.v", "log": log}, False)
+    else:
+        fails = MX.decode_failures(res[0])
+        for j, k in enumerate(typed_idx):
+            fo = fails.get(j, [])
+            rep.obligation(True, 3 - len(fo))
+            if fo:
+                rep.obligation(False, len(fo))
+                typed_fail[k] = fo
+    rep.coverage["typed_cases"] = len(typed_idx)
+    rep.coverage["typed_obligations_per_case"] = TYPED_OBLIGATION_NAMES
     obligation_fail = {}
     n_checked = 0
     for p, idx, (ok, res, log) in zip(files, index, results):
@@ -806,6 +1396,8 @@ def run(rep: C.Report, tier: str) -> int:
         obligation_fail.setdefault(k, []).append(8)
     for k, fo in obligation_fail.items():
         suspicious[k] = "; ".join(filter(None, [suspicious.get(k)] + [OBLIGATION_NAMES[o] for o in fo]))
+    for k, fo in typed_fail.items():
+        suspicious[k] = "; ".join(filter(None, [suspicious.get(k)] + [TYPED_OBLIGATION_NAMES[o] for o in fo]))
     rep.coverage["cases_validated_against_impl"] = n_checked
     rep.coverage["evidence_goals"] = len(goals)
     rep.coverage["correspondence_disagreements"] = len(suspicious)
@@ -834,6 +1426,12 @@ def run(rep: C.Report, tier: str) -> int:
             n, i = len(rp["history"]), rp["index"]
         return "" if n == 1 else f" [inverter {i + 1} of {n} constructed in the same process before any was used]"
 
+    def repr_text(k):
+        t, i = cases[k].get("theta_repr", "float64"), cases[k].get("input_repr", "float64")
+        if t == i == "float64":
+            return ""
+        return f" [hyper-parameters handed over as {t}, y / model matrix / positions as {i}]"
+
     reported = 0
     # silently wrong numbers first, then exceptions, then the rest
     for k in sorted(suspicious, key=lambda k: (1 if outs[k]["status"] != "ok" else 0 if outs[k].get("foreign") else 2, k)):
@@ -844,23 +1442,25 @@ def run(rep: C.Report, tier: str) -> int:
         if out["status"] != "ok":
             rp = replay_of(cases, sessions, where, k)
             rp["impl"] = {k2: out[k2] for k2 in ("status", "stage", "error")}
-            rep.violation("C17/exception", f"GpLinearInverter failed on a valid input ({suspicious[k]})" + hist_text(k, rp),
-                          rp, True)
+            rep.violation("C17/exception", f"GpLinearInverter failed on a valid input ({suspicious[k]})" + hist_text(k, rp)
+                          + repr_text(k), rp, True)
             continue
         bad = oracle(case, out)
         if bad:
             rp = replay_of(cases, sessions, where, k)
             rp["failing_obligations"] = obligation_fail.get(k)
             rp["history_obligations"] = hist_fail.get(where[k][0])
-            rep.violation("C17/property", "; ".join(bad[:3]) + hist_text(k, rp), rp, True)
+            rp["representation_obligations"] = typed_fail.get(k)
+            rep.violation("C17/property", "; ".join(bad[:3]) + hist_text(k, rp) + repr_text(k), rp, True)
         else:
             rep.violation("C17/correspondence",
                           "implementation and model disagree (" + suspicious[k] +
-                          "), but the property was not seen to fail on this input" + hist_text(k),
+                          "), but the property was not seen to fail on this input" + hist_text(k) + repr_text(k),
                           {"theorem_or_correspondence": "Matrix.InversionCheck.check_lin / Model.InversionHistory.check_hist "
                                                         "(correspondence with GpLinearInverter)",
                            "failing_obligations": obligation_fail.get(k),
                            "history_obligations": hist_fail.get(where[k][0]),
+                           "representation_obligations": typed_fail.get(k),
                            "case": describe(case),
                            "history": [describe(cases[j]) for j in sessions[where[k][0]]], "index": where[k][1]}, False)
 
@@ -874,9 +1474,12 @@ def run(rep: C.Report, tier: str) -> int:
         n_or += 1
         if bad:
             rp = replay_of(cases, sessions, where, k)
-            rep.violation("C17/property", "; ".join(bad[:3]) + hist_text(k, rp), rp, True)
+            rep.violation("C17/property", "; ".join(bad[:3]) + hist_text(k, rp) + repr_text(k), rp, True)
     rep.coverage["oracle_runs"] = n_or
     lap("oracle")
+    large_finish(rep, large_state, tier)
+    collect_audits()
+    lap("large data sets: goals collected, oracle; audits of C17Repr / C17Large collected")
 
     rep.assumptions = [
         "scipy.linalg.solve / cholesky / solve_triangular are exact in the theorems; the run compares every output "
@@ -890,10 +1493,18 @@ def run(rep: C.Report, tier: str) -> int:
         "implementation's own marginal_likelihood",
         "sum_i ln L_ii = 1/2 ln det J uses ln of a product (Reals); det J = (prod L_ii)^2 is a theorem",
         "ListOps implements the same algebra as the MathComp instance: not proved (DESIGN 2.3)",
+        "representations: reduced-precision containers are the caller's choice of precision -- for a float32 "
+        "hyper-parameter vector the model takes the K the kernel objects build for that vector; float32 positions / "
+        "y_err and 8/16-bit integer vectors are not generated; an integer y_err is refused by the constructor "
+        "(ValueError) and counted, not checked",
+        "large data sets: the recorded Cholesky factor is tied to A K A^T + S by LAPACK and by the independent "
+        "slogdet oracle [R] only; C17_evidence_logdet (reals) and C17_evidence_value (any realFieldType) are stated "
+        "separately",
     ]
     return rep.finish(
         level="proof",
-        checker_cmd="make -C /verif/coq + coqc on coq/gen/C17/cases_*.v (vm_compute) and evidence_*.v (coq-interval)",
+        checker_cmd="make -C /verif/coq + coqc on coq/gen/C17/cases_*.v, typed.v, history.v (vm_compute) and "
+                    "evidence_*.v, large_*.v (coq-interval)",
         trusted_base=C.KERNEL_TB + ["axioms: none in the C17 theorems (closed under the global context); the evidence "
                                     "goals use Coq's Reals (ClassicalDedekindReals.sig_forall_dec, sig_not_dec, "
                                     "functional_extensionality_dep) and coq-interval (Uint63 primitives)",
@@ -906,13 +1517,33 @@ def run(rep: C.Report, tier: str) -> int:
              "relative to the unit. Stream `histories`: sessions of 2-4 inverters constructed in one process before any "
              "is used, >= 2 of them with the kernel left at its default, the others default / class / instance, 3 in 4 "
              "sessions with one common number of parameters, positions always different; the model of the object "
-             "structure (Model/InversionHistory.v) is evaluated on every session (also the single-inverter ones)")
+             "structure (Model/InversionHistory.v) is evaluated on every session (also the single-inverter ones). "
+             "Stream `representations`: the same walk (m, n <= 5) with the hyper-parameter vector handed to every method "
+             "as int64 / int32 array, list / tuple of Python ints (whole numbers -2..2), list / tuple of floats, float32 "
+             "array (multiples of 1/64) x y, model matrix, positions as float64 / int64 / int32 arrays, y alone as int64, "
+             "y and model matrix as float32, y_err as int64 (refused-or-right); Model/InversionRepr.v evaluated on each "
+             "(typed.v). Stream `large`: 7 (13) fixed problem shapes with 120..1000 data rows, 15..300 parameters, "
+             "y_err 0.5 %..50 at unit 1 and 2-5 % in units 2^-30, 2^-13, 2^17, one problem cut to the number of rows "
+             "at which prod(diag L) is a subnormal double; arrays drawn from a seeded numpy generator; interval goals on "
+             "the implementation's recorded Cholesky factor for both evidence routines (the 1000-row problem: thorough "
+             "tier only), slogdet oracle and central differences on all")
 
 
 def replay(path):
     import json
     d = json.load(open(path))
     rp = d["replay"]
+    if "large_case" in rp and "theorem_or_correspondence" not in rp:
+        sp = rp["large_case"]
+        out = large_eval(sp)
+        if out["status"] != "ok":
+            print("implementation fails:", out)
+            return 1
+        bad = large_oracle(sp, out)
+        print(f"{sp['m']} data rows, {sp['n']} parameters: marginal_likelihood = {out['lml']!r}, "
+              f"marginal_likelihood_gradient()[0] = {out['lml_g']!r}")
+        print("property failures:", bad)
+        return 1 if bad else 0
     if "case" not in rp:
         print("replay names a broken theorem / correspondence:", rp.get("theorem_or_correspondence"))
         return 1
